@@ -13,6 +13,10 @@
 //!   deccap64|32|16 <cap> <text>, pushcap64|32|16 <cap> <text>
 //!        the same through a builder that holds at most <cap> octets
 //!        (octseq::Array<cap>): ShortBuf paths
+//!   tok64|32|16 <token>, ent64|32|16 <token>..   IterScanner::convert_token /
+//!        convert_entry with the codec's SymbolConverter (zone-file escapes)
+//!   saltstr|saltscan|hashstr|hashscan <text>, saltdisp|hashdisp <octets>
+//!        Nsec3Salt / OwnerHash FromStr, scan (IterScanner), Display
 //!   conv64|conv32|conv16 <text> <text>..=> Ok <octets> | Err <Illegal|Trailing|Short>
 //!        the scanner's SymbolConverter fed with the chars of every chunk
 //!        followed by EndOfToken, then process_tail
@@ -259,6 +263,254 @@ fn t2_cap(out: &mut Out, c: Codec, cap: usize, s: &[char]) {
             chk(out, matches!(&r, Ok(x) if *x == fin), &format!("{}_cap_push_differs_from_decode", p), &case, &format!("{:?} vs {:?}", r, fin));
         }
     }
+}
+
+// ---------------------------- users: IterScanner entry points, NSEC3 salt / owner hash
+
+use domain::base::iana::Nsec3HashAlgorithm;
+use domain::base::rdata::ComposeRecordData;
+use domain::base::scan::IterScanner;
+use domain::rdata::nsec3::{Nsec3Salt, Nsec3SaltFromStrError, Nsec3param, OwnerHash};
+use std::str::FromStr;
+
+fn scan_kind(msg: &str) -> &'static str {
+    let m = msg.to_ascii_lowercase();
+    if m.contains("escape") || m.contains("end of input") { "BadEscape" }
+    else if m.contains("too long") { "TooLong" }
+    else if m.contains("end of entry") { "EndOfEntry" }
+    else { conv_kind(msg) }
+}
+
+/// Independent check of the escape syntax of a zone-file token (RFC 1035 5.1):
+/// `\DDD` with DDD <= 255, or `\` followed by a printable ASCII character.
+fn escapes_ok(s: &[char]) -> bool {
+    let mut i = 0;
+    while i < s.len() {
+        if s[i] != '\\' { i += 1; continue; }
+        if i + 1 >= s.len() { return false; }
+        let c = s[i + 1];
+        if c.is_ascii_digit() {
+            if i + 3 >= s.len() || !s[i + 2].is_ascii_digit() || !s[i + 3].is_ascii_digit() { return false; }
+            let v = (c as u32 - 48) * 100 + (s[i + 2] as u32 - 48) * 10 + (s[i + 3] as u32 - 48);
+            if v > 255 { return false; }
+            i += 4;
+        } else {
+            if (c as u32) < 0x20 || (c as u32) > 0x7e { return false; }
+            i += 2;
+        }
+    }
+    true
+}
+
+fn imp_scan_token(c: Codec, tokens: &[Vec<char>], entry: bool) -> Result<Result<Vec<u8>, &'static str>, String> {
+    let toks: Vec<String> = tokens.iter().map(|t| text_of(t)).collect();
+    catch(move || {
+        let mut sc = IterScanner::<_, Vec<u8>>::new(toks.iter().map(|x| x.as_str()));
+        use domain::base::scan::Scanner;
+        let r = match (c, entry) {
+            (B64, false) => sc.convert_token(base64::SymbolConverter::new()),
+            (B32, false) => sc.convert_token(base32::SymbolConverter::new()),
+            (B16, false) => sc.convert_token(base16::SymbolConverter::new()),
+            (B64, true) => sc.convert_entry(base64::SymbolConverter::new()),
+            (B32, true) => sc.convert_entry(base32::SymbolConverter::new()),
+            (B16, true) => sc.convert_entry(base16::SymbolConverter::new()),
+        };
+        r.map_err(|e| scan_kind(&e.to_string()))
+    })
+}
+
+fn obs_scan(r: &Result<Result<Vec<u8>, &'static str>, String>) -> String {
+    match r { Err(_) => "Panic".to_string(), Ok(Ok(v)) => format!("Ok {}", hex(v)), Ok(Err(k)) => format!("Err {}", k) }
+}
+
+/// IterScanner::convert_token (one token) / convert_entry (all tokens)
+fn t2_scan(out: &mut Out, c: Codec, tokens: &[Vec<char>], entry: bool) {
+    let mut case = format!("{}{}", if entry { "ent" } else { "tok" }, c.tag());
+    for t in tokens { case.push(' '); case.push_str(&cps(t)); }
+    out.begin(&case);
+    let r = imp_scan_token(c, tokens, entry);
+    let whole: Vec<char> = tokens.iter().flatten().copied().collect();
+    out.case(&case, &obs_scan(&r), !whole.is_empty(), &format!("{}{}", if entry { "ent" } else { "tok" }, c.tag()));
+    let p = c.pfx();
+    match &r {
+        Err(e) => chk(out, false, &format!("{}_scan_panics", p), &case, e),
+        Ok(r) => {
+            if !tokens.iter().all(|t| escapes_ok(t)) {
+                // ill-formed text must not be accepted, whatever precedes the bad escape
+                chk(out, r.is_err(), "iter_scanner_bad_escape_truncates", &case, &format!("{:?}", r));
+            } else if !whole.contains(&'\\') {
+                let d = imp_decode(c, &whole);
+                let same = match (r, &d) { (Ok(v), Ok(Ok(w))) => v == w, (Err(_), Ok(Err(_))) => true, _ => false };
+                chk(out, same, &format!("{}_scan_differs_from_decode", p), &case, &format!("{:?} vs decode {:?}", r, d));
+            } else {
+                // valid escapes: \c stands for c, \DDD is never a codec character
+                let mut plain: Vec<char> = vec![];
+                let mut decimal = false;
+                for t in tokens { let mut i = 0; while i < t.len() {
+                    if t[i] == '\\' { if t[i + 1].is_ascii_digit() { decimal = true; i += 4; } else { plain.push(t[i + 1]); i += 2; } }
+                    else { plain.push(t[i]); i += 1; } } }
+                if decimal {
+                    chk(out, r.is_err(), &format!("{}_scan_accepts_decimal_escape", p), &case, &format!("{:?}", r));
+                } else {
+                    let d = imp_decode(c, &plain);
+                    let same = match (r, &d) { (Ok(v), Ok(Ok(w))) => v == w, (Err(_), Ok(Err(_))) => true, _ => false };
+                    chk(out, same, &format!("{}_scan_simple_escape", p), &case, &format!("{:?} vs decode of unescaped {:?}", r, d));
+                }
+            }
+        }
+    }
+}
+
+/// Composing an NSEC3PARAM with the salt must not panic.
+fn salt_composes(v: &[u8], salt: Nsec3Salt<Vec<u8>>) -> bool {
+    let n = v.len();
+    catch(move || { let p = Nsec3param::new(Nsec3HashAlgorithm::SHA1, 0, 0, salt); let mut t = Vec::new(); p.compose_rdata(&mut t).map(|_| t.len()) })
+        .map(|r| r == Ok(5 + n)).unwrap_or(false)
+}
+
+fn t2_salt(out: &mut Out, s: &[char]) {
+    let t = text_of(s);
+    // FromStr
+    let case = format!("saltstr {}", cps(s));
+    out.begin(&case);
+    let t1 = t.clone();
+    let r = catch(move || Nsec3Salt::<Vec<u8>>::from_str(&t1));
+    let obs = match &r {
+        Err(_) => "Panic".to_string(),
+        Ok(Ok(v)) => format!("Ok {}", hex(v.as_slice())),
+        Ok(Err(Nsec3SaltFromStrError::DecodeError(e))) => format!("Err {}", kind(e)),
+        Ok(Err(Nsec3SaltFromStrError::Nsec3SaltError(_))) => "Err TooLong".to_string(),
+    };
+    out.case(&case, &obs, !s.is_empty(), "saltstr");
+    let want: Option<Vec<u8>> = if t == "-" { Some(vec![]) } else { ref_decode(B16, s).filter(|v| v.len() <= 255) };
+    match &r {
+        Err(e) => chk(out, false, "nsec3_salt_from_str_panics", &case, e),
+        Ok(r) => {
+            let got = r.as_ref().ok().map(|x| x.as_slice().to_vec());
+            chk(out, got == want, "nsec3_salt_from_str", &case, &format!("{:?} vs reference {:?}", got.as_ref().map(|v| v.len()), want.as_ref().map(|v| v.len())));
+        }
+    }
+    // scan through IterScanner
+    let case = format!("saltscan {}", cps(s));
+    out.begin(&case);
+    let t2 = t.clone();
+    let r2 = catch(move || { let mut sc = IterScanner::<_, Vec<u8>>::new([t2.as_str()]); Nsec3Salt::<Vec<u8>>::scan(&mut sc).map_err(|e| scan_kind(&e.to_string())) });
+    let obs = match &r2 { Err(_) => "Panic".to_string(), Ok(Ok(v)) => format!("Ok {}", hex(v.as_slice())), Ok(Err(k)) => format!("Err {}", k) };
+    out.case(&case, &obs, !s.is_empty(), "saltscan");
+    match r2 {
+        Err(e) => chk(out, false, "nsec3_salt_scan_panics", &case, &e),
+        Ok(r2) => {
+            if let Ok(v) = &r2 {
+                let bytes = v.as_slice().to_vec();
+                chk(out, bytes.len() <= 255 && salt_composes(&bytes, v.clone()), "nsec3_scan_unchecked_length", &case, &format!("scanned salt of {} octets", bytes.len()));
+            }
+            if !escapes_ok(s) {
+                chk(out, r2.is_err(), "iter_scanner_bad_escape_truncates", &case, &format!("{:?}", r2.as_ref().map(|v| v.as_slice().len())));
+            } else if !s.contains(&'\\') && r2.as_ref().map_or(true, |v| v.as_slice().len() <= 255) {
+                let got = r2.as_ref().ok().map(|x| x.as_slice().to_vec());
+                chk(out, got == want, "nsec3_salt_scan_differs_from_str", &case, &format!("{:?} vs from_str reference {:?}", got.as_ref().map(|v| v.len()), want.as_ref().map(|v| v.len())));
+            }
+        }
+    }
+}
+
+fn t2_salt_display(out: &mut Out, b: &[u8]) {
+    let case = format!("saltdisp {}", hex(b));
+    out.begin(&case);
+    let salt = match Nsec3Salt::from_octets(b.to_vec()) {
+        Ok(s) => s,
+        Err(_) => { out.case(&case, "Err TooLong", true, "saltdisp"); chk(out, b.len() > 255, "nsec3_salt_from_octets", &case, "rejected a salt of <= 255 octets"); return; }
+    };
+    chk(out, b.len() <= 255, "nsec3_salt_from_octets", &case, "accepted a salt of > 255 octets");
+    let text = format!("{}", salt);
+    let chars: Vec<char> = text.chars().collect();
+    out.case(&case, &format!("Ok {}", cps(&chars)), !b.is_empty(), "saltdisp");
+    let want = if b.is_empty() { "-".to_string() } else { ref_encode(B16, b) };
+    chk(out, text == want, "nsec3_salt_display", &case, &format!("{} vs {}", text, want));
+    let back = Nsec3Salt::<Vec<u8>>::from_str(&text);
+    chk(out, matches!(&back, Ok(x) if x.as_slice() == b), "nsec3_salt_roundtrip", &case, &format!("{:?}", back.map(|x| x.as_slice().len())));
+    let t2 = text.clone();
+    let sc = catch(move || { let mut sc = IterScanner::<_, Vec<u8>>::new([t2.as_str()]); Nsec3Salt::<Vec<u8>>::scan(&mut sc).map(|x| x.as_slice().to_vec()).map_err(|e| e.to_string()) });
+    chk(out, matches!(&sc, Ok(Ok(x)) if x.as_slice() == b), "nsec3_salt_scan_roundtrip", &case, &format!("{:?}", sc.map(|x| x.map(|v| v.len()))));
+}
+
+fn t2_hash(out: &mut Out, s: &[char]) {
+    let t = text_of(s);
+    let case = format!("hashstr {}", cps(s));
+    out.begin(&case);
+    let t1 = t.clone();
+    let r = catch(move || OwnerHash::<Vec<u8>>::from_str(&t1));
+    let obs = match &r { Err(_) => "Panic".to_string(), Ok(Ok(v)) => format!("Ok {}", hex(v.as_slice())), Ok(Err(e)) => format!("Err {}", kind(e)) };
+    out.case(&case, &obs, !s.is_empty(), "hashstr");
+    let want = ref_decode(B32, s).filter(|v| v.len() <= 255);
+    match &r {
+        Err(e) => chk(out, false, "nsec3_hash_from_str_panics", &case, e),
+        Ok(r) => {
+            let got = r.as_ref().ok().map(|x| x.as_slice().to_vec());
+            if let Some(g) = &got { chk(out, g.len() <= 255, "nsec3_scan_unchecked_length", &case, &format!("OwnerHash::from_str gave {} octets", g.len())); }
+            if got.as_ref().map_or(true, |g| g.len() <= 255) {
+                chk(out, got == want, "nsec3_hash_from_str", &case, &format!("{:?} vs reference {:?}", got.as_ref().map(|v| v.len()), want.as_ref().map(|v| v.len())));
+            }
+        }
+    }
+    let case = format!("hashscan {}", cps(s));
+    out.begin(&case);
+    let t2 = t.clone();
+    let r2 = catch(move || { let mut sc = IterScanner::<_, Vec<u8>>::new([t2.as_str()]); OwnerHash::<Vec<u8>>::scan(&mut sc).map(|x| x.as_slice().to_vec()).map_err(|e| scan_kind(&e.to_string())) });
+    out.case(&case, &obs_scan(&r2), !s.is_empty(), "hashscan");
+    match r2 {
+        Err(e) => chk(out, false, "nsec3_hash_scan_panics", &case, &e),
+        Ok(r2) => {
+            if let Ok(v) = &r2 { chk(out, v.len() <= 255, "nsec3_scan_unchecked_length", &case, &format!("scanned owner hash of {} octets", v.len())); }
+            if !escapes_ok(s) {
+                chk(out, r2.is_err(), "iter_scanner_bad_escape_truncates", &case, &format!("{:?}", r2.as_ref().map(|v| v.len())));
+            } else if !s.contains(&'\\') && r2.as_ref().map_or(true, |v| v.len() <= 255) {
+                chk(out, r2.clone().ok() == want, "nsec3_hash_scan_differs_from_str", &case, &format!("{:?} vs reference {:?}", r2.as_ref().map(|v| v.len()), want.as_ref().map(|v| v.len())));
+            }
+        }
+    }
+}
+
+fn t2_hash_display(out: &mut Out, b: &[u8]) {
+    let case = format!("hashdisp {}", hex(b));
+    out.begin(&case);
+    let h = match OwnerHash::from_octets(b.to_vec()) {
+        Ok(h) => h,
+        Err(_) => { out.case(&case, "Err TooLong", true, "hashdisp"); chk(out, b.len() > 255, "nsec3_hash_from_octets", &case, "rejected <= 255 octets"); return; }
+    };
+    chk(out, b.len() <= 255, "nsec3_hash_from_octets", &case, "accepted > 255 octets");
+    let text = format!("{}", h);
+    let chars: Vec<char> = text.chars().collect();
+    out.case(&case, &format!("Ok {}", cps(&chars)), !b.is_empty(), "hashdisp");
+    chk(out, text == ref_encode(B32, b), "nsec3_hash_display", &case, &text);
+    let back = OwnerHash::<Vec<u8>>::from_str(&text);
+    chk(out, matches!(&back, Ok(x) if x.as_slice() == b), "nsec3_hash_roundtrip", &case, &format!("{:?}", back.map(|x| x.as_slice().len())));
+    let lower = text.to_ascii_lowercase();
+    let sc = catch(move || { let mut sc = IterScanner::<_, Vec<u8>>::new([lower.as_str()]); OwnerHash::<Vec<u8>>::scan(&mut sc).map(|x| x.as_slice().to_vec()).map_err(|e| e.to_string()) });
+    chk(out, matches!(&sc, Ok(Ok(x)) if x.as_slice() == b), "nsec3_hash_scan_roundtrip", &case, &format!("{:?}", sc.map(|x| x.map(|v| v.len()))));
+}
+
+/// Sprinkle zone-file escapes over a text: valid simple and decimal escapes and
+/// malformed ones (lone backslash at the end, short or > 255 decimal, non-printable).
+fn escape_some(r: &mut Rng, s: &[char]) -> Vec<char> {
+    let mut o = vec![];
+    for ch in s {
+        match r.below(12) {
+            0 if ch.is_ascii() && (*ch as u32) >= 0x21 && (*ch as u32) <= 0x7e && !ch.is_ascii_digit() => { o.push('\\'); o.push(*ch); }
+            1 if ch.is_ascii() => { o.push('\\'); for d in format!("{:03}", *ch as u32).chars() { o.push(d); } }
+            _ => o.push(*ch),
+        }
+    }
+    match r.below(10) {
+        0 => o.push('\\'),
+        1 => { o.push('\\'); o.push('9'); }
+        2 => { for d in "\\300".chars() { o.push(d); } }
+        3 => { o.push('\\'); o.push('\u{e9}'); }
+        4 => { let pos = r.below(o.len() as u64 + 1) as usize; o.insert(pos, '\\'); }
+        5 => { for d in "\\25x".chars() { o.push(d); } }
+        _ => {}
+    }
+    o
 }
 
 // ------------------------------------- independent RFC 4648 reference (bits)
@@ -703,6 +955,59 @@ fn main() {
         let mut all: Vec<Vec<char>> = vec![];
         exhaustive(&sub[..4], if a.thorough { 6 } else { 5 }, &mut |s| all.push(s.to_vec()));
         for s in &all { for cap in 0..3 { if want!() { t2_cap(&mut out, *c, cap, s); } } }
+    }
+    // ---- users: NSEC3 salt / owner hash (all lengths around the 255 limit) and IterScanner
+    for n in (0..=6usize).chain([20, 32, 64, 127, 128, 200, 254, 255, 256, 257, 300, 320]) {
+        let b = if n % 2 == 0 { r.bytes(n) } else { vec![0xffu8; n] };
+        if want!() { t2_salt_display(&mut out, &b); }
+        if want!() { t2_hash_display(&mut out, &b); }
+        let t16: Vec<char> = ref_encode(B16, &b).chars().collect();
+        let t32: Vec<char> = ref_encode(B32, &b).chars().collect();
+        if want!() { t2_salt(&mut out, &t16); }
+        if want!() { t2_hash(&mut out, &t32); }
+        if want!() { t2_hash(&mut out, &t32.iter().map(|c| c.to_ascii_lowercase()).collect::<Vec<_>>()); }
+    }
+    for t in ["-", "", "--", "-0A", "0A-", "\\-", "\\-0", "F0\\", "F0\\9", "F00F\\300", "\\F0", "F\\048", "f0", "F", "F0 ", "\\045", "G0"] {
+        if want!() { t2_salt(&mut out, &chars(t)); }
+    }
+    for t in ["", "CO", "co", "C", "CO\\", "CO\\9", "C\\O", "C\\079", "CW", "CO=", "\\CO"] {
+        if want!() { t2_hash(&mut out, &chars(t)); }
+    }
+    {
+        let n_u = if a.thorough { 6000 } else { 600 } * a.scale;
+        let (al16, nb16) = (alphabet(B16), neighbours(B16));
+        let (al32, nb32) = (alphabet(B32), neighbours(B32));
+        for i in 0..n_u {
+            let s = rand_text(&mut r, B16, &al16, &nb16);
+            let s = if i % 3 == 0 { escape_some(&mut r, &s) } else { s };
+            if want!() { t2_salt(&mut out, &s); }
+            let s = rand_text(&mut r, B32, &al32, &nb32);
+            let s = if i % 3 == 0 { escape_some(&mut r, &s) } else { s };
+            if want!() { t2_hash(&mut out, &s); }
+            let n = r.below(40) as usize;
+            let b = r.bytes(n);
+            if want!() { t2_salt_display(&mut out, &b); }
+            if want!() { t2_hash_display(&mut out, &b); }
+        }
+        for c in codecs {
+            let al = alphabet(c);
+            let nb = neighbours(c);
+            for i in 0..n_u {
+                let s = rand_text(&mut r, c, &al, &nb);
+                let mut toks = split(&mut r, &s);
+                if i % 2 == 0 { toks = toks.iter().map(|t| escape_some(&mut r, t)).collect(); }
+                // tokens never contain blanks in a zone file; keep them as they are for the str scanner
+                if want!() { t2_scan(&mut out, c, &toks, true); }
+                let one = if i % 2 == 0 { escape_some(&mut r, &s) } else { s.clone() };
+                if want!() { t2_scan(&mut out, c, &[one], false); }
+            }
+        }
+    }
+    for (c, ts) in [(B64, &["Zm9v", "Zm9v\\", "Zm\\9v", "Zm9v\\300", "Z\\m9v", "Zm9\\118", "Zg\\=\\="][..]), (B32, &["CO", "CO\\", "C\\O", "CO\\25"][..]), (B16, &["F00F", "F00F\\", "F0\\0F", "F00F\\256", "F00\\070"][..])] {
+        for t in ts {
+            if want!() { t2_scan(&mut out, c, &[chars(t)], false); }
+            if want!() { t2_scan(&mut out, c, &[chars(t), chars(t)], true); }
+        }
     }
     // ---- random texts: decode, push API, random chunkings through the converter
     let n_txt = if a.thorough { 60_000 } else { 5_000 } * a.scale;
